@@ -84,14 +84,19 @@ func binom(n, k int64) *big.Int { return new(big.Int).Binomial(n, k) }
 
 var maxU64 = new(big.Int).Sub(new(big.Int).Lsh(big.NewInt(1), 64), big.NewInt(1))
 
+func tableRows(c *Ctx) [][]*big.Int {
+	small, _, _ := constTable(c, "comb", "smallEntries")
+	return small
+}
+
 func ruleTable(c *Ctx) *RuleResult {
-	r := &RuleResult{Rule: "TABLE", Doc: "smallEntries[n][k] = C(n,k) for all 33 rows; for each k, maxSizes[k] is the largest n with k*C(n,k) <= 2^64-1 (the largest intermediate of the multiplicative loop); k > largestK always overflows; Coeff compares with MaxInt before converting; CoeffUint64 has the loop shape these bounds are about", MinInst: 300}
+	r := &RuleResult{Rule: "TABLE", Doc: "smallEntries[n][k] = C(n,k) for every row of the table; for each k, maxSizes[k] is the largest n with k*C(n,k) <= 2^64-1 (the largest intermediate of the multiplicative loop); k > largestK always overflows; Coeff compares with MaxInt before converting; CoeffUint64 has the loop shape these bounds are about", MinInst: 300}
 	small, _, spos := constTable(c, "comb", "smallEntries")
 	// (1) Pascal rows
 	r.inst("smallEntries: %d rows", len(small))
-	r.oblig(len(small) == 33)
-	if len(small) != 33 {
-		r.find("comb.smallEntries:row count", c.pos(spos), "smallEntries has %d rows, the code indexes rows 0..32", len(small))
+	r.oblig(len(small) >= 1)
+	if len(small) < 1 {
+		r.find("comb.smallEntries:row count", c.pos(spos), "smallEntries has no rows")
 	}
 	for n, row := range small {
 		want := n/2 + 1
@@ -448,13 +453,30 @@ func shapeCoeffUint64(c *Ctx, r *RuleResult) {
 			}
 			found = true
 			row, col := P.poly(ia0.Index), P.poly(ia.Index)
-			a := P.Prove(row.add(constP(-32), 1), b)
-			bq := P.Prove(col.scale(2).add(row, -1), b)
-			r.inst("comb.CoeffUint64: smallEntries[%s][%s] with row <= 32 and 2*col <= row", P.showTerm(row), P.showTerm(col))
+			// the table is never written (GLOBAL), so len(smallEntries) is its number of rows
+			last := int64(len(tableRows(c)) - 1)
+			var lenFacts []Poly
+			for _, b2 := range fn.Blocks {
+				for _, in2 := range b2.Instrs {
+					if call, ok := in2.(*ssa.Call); ok {
+						if bi, isB := call.Call.Value.(*ssa.Builtin); isB && bi.Name() == "len" {
+							if ld, ok := call.Call.Args[0].(*ssa.UnOp); ok {
+								if g2, ok := ld.X.(*ssa.Global); ok && g2.Name() == "smallEntries" {
+									lp := P.lenOf(call.Call.Args[0])
+									lenFacts = append(lenFacts, lp.add(constP(-(last+1)), 1), lp.scale(-1).add(constP(last+1), 1))
+								}
+							}
+						}
+					}
+				}
+			}
+			a := P.ProveWith(row.add(constP(-last), 1), b, lenFacts)
+			bq := P.ProveWith(col.scale(2).add(row, -1), b, lenFacts)
+			r.inst("comb.CoeffUint64: smallEntries[%s][%s] with row <= %d and 2*col <= row", P.showTerm(row), P.showTerm(col), last)
 			r.oblig(a)
 			r.oblig(bq)
 			if !a || !bq {
-				r.find("comb.CoeffUint64:smallEntries access", c.instrPos(ia), "table lookup smallEntries[%s][%s] is not guarded by n <= 32 and k <= n/2 (row<=32:%v, 2k<=n:%v)", P.showTerm(row), P.showTerm(col), a, bq)
+				r.find("comb.CoeffUint64:smallEntries access", c.instrPos(ia), "table lookup smallEntries[%s][%s] is not guarded by n <= %d (the last row) and k <= n/2 (row in range:%v, 2k<=n:%v)", P.showTerm(row), P.showTerm(col), last, a, bq)
 			}
 		}
 	}
@@ -677,7 +699,7 @@ func boundedByValue(P *Prover, bo *ssa.BinOp, b *ssa.BasicBlock) string {
 func init() {
 	register(&propDef{
 		id:          "C16",
-		explanation: "Decides sentence one ('exact or refuse', and 'does return whenever C(n,k)*min(k,n-k) fits') for CoeffUint64/Coeff: TABLE checks with math/big that all 289 smallEntries cells equal C(n,k), that each of the 30 thresholds maxSizes[k] is the largest n with k*C(n,k) <= 2^64-1 (no wrap, and no earlier refusal than necessary), that refusing k > largestK is justified, that maxInt is MaxInt; and links the tables to the code by recognising on SSA the loop acc*=(n-k+i); acc/=i started at 1, entered only under k <= largestK, n <= maxSizes[k], 2k <= n, with the table lookup guarded by n <= 32 and 2k <= n, and Coeff's int conversion dominated by the <= maxInt test. OVF requires every other multiplication / addition / unsigned subtraction in package comb to be bounded by E-PROVE or to be a checked-arithmetic idiom (addHasOverflowed pattern, bits.Mul64 with the high word tested). Does not decide that Rank/Unrank are inverse.",
+		explanation: "Decides sentence one ('exact or refuse', and 'does return whenever C(n,k)*min(k,n-k) fits') for CoeffUint64/Coeff: TABLE checks with math/big that all smallEntries cells (289 today) equal C(n,k), that each of the 30 thresholds maxSizes[k] is the largest n with k*C(n,k) <= 2^64-1 (no wrap, and no earlier refusal than necessary), that refusing k > largestK is justified, that maxInt is MaxInt; and links the tables to the code by recognising on SSA the loop acc*=(n-k+i); acc/=i started at 1, entered only under k <= largestK, n <= maxSizes[k], 2k <= n, with the table lookup guarded by n <= (last row of the table) and 2k <= n, and Coeff's int conversion dominated by the <= maxInt test. OVF requires every other multiplication / addition / unsigned subtraction in package comb to be bounded by E-PROVE or to be a checked-arithmetic idiom (addHasOverflowed pattern, bits.Mul64 with the high word tested). Does not decide that Rank/Unrank are inverse.",
 		notDecided:  []string{"that Rank and Unrank are mutually inverse and agree with CombinationsColex", "termination of Unrank beyond absence of silent wrap"},
 		assumptions: []string{"64-bit int/uint (the sizes go/types uses for this build)", "math/big Binomial"},
 		run: func(c *Ctx, tier string) []*RuleResult {
